@@ -39,7 +39,7 @@ func init() {
 			}}},
 		Quick:    200000,
 		Thorough: 3000000,
-		Require:  []string{"adv.handshake.stall", "blocked.when:local-close", "blocked.when:peer-fin", "blocked.when:peer-reset", "interrupted.whileBlocked:cancel", "close.whileReaderBlockedOnFullQueue", "socket.deadOnArrival"},
+		Require:  []string{"adv.handshake.stall", "blocked.when:local-close", "blocked.when:peer-fin", "blocked.when:peer-reset", "interrupted.whileBlocked:cancel", "close.whileReaderBlockedOnFullQueue", "socket.deadOnArrival", "onClose.registeredLate", "onClose.registeredAfterTheEnd"},
 		Assume: []string{
 			"bounded delay D = one tick interval (4 s) + 1 s of simulated time after the interrupting event (for a deadline: after the deadline), with one housekeeping tick in between and nothing further delivered",
 			"connections are built like Dial does (the library owns and closes the socket); Stop / Serve of the tcp and dtls servers are checked by hosting C10's server workloads (rule C09.R5: Serve returns after Stop, nothing stays blocked)",
@@ -194,11 +194,30 @@ func c09Run(e *Env) {
 	if peer == pStallStream {
 		w.SC.LimitOut(8) // the peer stopped reading: the send buffer is full after the first frame
 	}
-	// on-close callbacks: registered before the connection's goroutines get to run at all (a connection whose
-	// first write fails shuts down at once, and callbacks registered after the shutdown are not promised to run)
+	// on-close callbacks: some registered before the connection's goroutines get to run at all, up to two later, at
+	// any moment - also after the connection has ended: "every registered on-close callback exactly once"
 	onClose := make([]int, 1+t.Choose(3))
 	for i := range onClose {
 		i := i
+		w.API.AddOnClose(func() {
+			e.mu.Lock()
+			onClose[i]++
+			e.mu.Unlock()
+			e.Notef("on-close callback %d", i)
+		})
+	}
+	lateCallbacks := 0
+	addOnClose := func(afterEnd bool) {
+		e.mu.Lock()
+		i := len(onClose)
+		onClose = append(onClose, 0)
+		e.mu.Unlock()
+		if afterEnd {
+			e.Probe("onClose.registeredAfterTheEnd")
+		} else {
+			e.Probe("onClose.registeredLate")
+		}
+		e.Logf("application registers on-close callback %d (connection ended: %v)", i, afterEnd)
 		w.API.AddOnClose(func() {
 			e.mu.Lock()
 			onClose[i]++
@@ -434,6 +453,14 @@ func c09Run(e *Env) {
 				w.UCC.Transmission().SetTransmissionNStart(n)
 			}})
 		}
+		if lateCallbacks < 2 {
+			// the application registers one more on-close callback - whenever it gets round to it: a client connection
+			// does not exist before Dial returns and may have ended (the peer closed it, its first write failed) by then
+			evs = append(evs, Event{Label: "add-on-close", W: 1, Do: func() {
+				lateCallbacks++
+				addOnClose(closed())
+			}})
+		}
 		evs = append(evs, Event{Label: "advance", W: 3, Do: func() {
 			dt := []time.Duration{tickEvery, time.Second, 2 * time.Second, 7 * time.Second}[t.Choose(4)]
 			e.Logf("advance %v then tick", dt)
@@ -488,6 +515,11 @@ func c09Run(e *Env) {
 	}
 	e.Sleep(D)
 	check()
+	if t.Chance(1, 3) {
+		// and one registered when everything is over
+		addOnClose(true)
+		e.Wait()
+	}
 	// R2: Close returned (every call of it)
 	e.mu.Lock()
 	cr := closeReturned
